@@ -37,6 +37,8 @@ type spFam struct {
 
 func init() { families["sp"] = func() Family { return &spFam{} } }
 
+func (f *spFam) Reseed(r *rand.Rand) { f.rng = r }
+
 func (f *spFam) Setup(cfg M, rng *rand.Rand) {
 	f.rng = rng
 	f.payers = strs(getl(cfg, "payers"), []string{"a", "b"})
